@@ -113,6 +113,18 @@ def replay_native(runner: NativeRunner, it: KItem, inp):
             m = re.match(r'OK parent=(\S+) len=\d+ child=(\S+) len=\d+ back=(\S+)', r)
             if m and (m.group(1) != m.group(2) or m.group(3) != 'same'):
                 bad = True
+            if m:
+                # the parent must carry the constraint constants (scalar constraints are visible in the Debug output)
+                dbg = r.split('dbg=', 1)[1] if 'dbg=' in r else ''
+                for k, v in mdl.all_constraints(t).items():
+                    if isinstance(v, int):
+                        dm = re.search(rf'\b{k}: (\d+)', dbg)
+                        if dm and int(dm.group(1)) != v:
+                            bad = True
+                # and the child's own encoding must be the reference encoding (constants included)
+                exp = venc.expected(it, inp)
+                if exp.get('bytes') is not None and m.group(2) != (exp['bytes'] or '-'):
+                    bad = True
     return bad, obs
 
 
